@@ -59,6 +59,8 @@ func runC32(c *an.Ctx) {
 	c.Rule("R2 tag codec: same magic byte; role-only exactly below protocol 3; same handle type; role key")
 	c.Rule("R3 relay: forwarder sends the reader's remainder to the header's destination; encoder layout = relay tag, header, inner tag, message")
 	c.Rule("R4 tags installed only if len(encodeTags(tags)) <= memberlist.MetaMaxSize on the same map (SetTags, Create)")
+	c.Rule("R5 every gossip decode into a local variable decodes into a fresh zero value (the decoder leaves absent fields untouched, so a reused target mixes two messages)")
+	c.Floor("R5", "decode sites with a local target", decodeTargetsFresh(c, "R5", c.P.FuncsIn(serf)), 12)
 	// tag names
 	tagName := map[string]string{}
 	for _, n := range []string{"messageLeaveType", "messageJoinType", "messagePushPullType", "messageUserEventType", "messageQueryType", "messageQueryResponseType", "messageConflictResponseType", "messageKeyRequestType", "messageKeyResponseType", "messageRelayType"} {
